@@ -103,3 +103,86 @@ def s07t_true_range_reference(ctx):
                                   b.file, b.term_line(bi))
     r.floor('true range computations in step functions', 4, n)
     return r
+
+
+def _accessor_of_input(t, first_input_arg=2):
+    """name of the OHLCV accessor when t is `<T as OHLCV>::acc(<the input candle>)`, 'value' when t is the input value itself, else None"""
+    t = _strip(t)
+    if t[0] == 'call' and ('OHLCV::' in t[4] or 'ohlcv' in t[4].lower()) and t[2]:
+        a = _strip(t[2][0])
+        while a[0] == 'call' and (a[4].endswith('::clone') or a[4].endswith('::from') or a[4].endswith('::into')) and a[2]:
+            a = _strip(a[2][0])
+        if a[0] == 'arg' and a[1] >= first_input_arg and len(t[2]) == 1:
+            return t[4].rsplit('::', 1)[-1]
+        return None
+    if t[0] == 'arg' and t[1] >= first_input_arg:
+        return 'value'
+    return None
+
+
+def s07l_latch_seeding(ctx):
+    """C08: a latch - a state field that every store in next() overwrites with one accessor of the current input (`self.prev_close =
+    candle.close()`, `self.last_value = value`) - must be seeded by the constructor with the same accessor of the construction value.
+    Otherwise the first step is judged against something other than 'the previous input' and feeding the first element again changes
+    the output."""
+    f = ctx.facts('default')
+    m = Model(f)
+    r = RuleResult('S07l', 'every latch (a field next() always overwrites with one accessor of its input) is seeded by new() / init() with the same accessor of the construction value')
+    cfg_of = m.config_of_instance_adt()
+    n = 0
+    for short, p, body, tr in r_counters.step_functions(m):
+        bodies = [body] + r_counters._local_mut_self_callees(m, body)
+        stores = {}
+        for bb in bodies:
+            for bj, si, s in bb.stmts():
+                if s['s'] != 'assign':
+                    continue
+                fp = self_field_of_place(s['pl'])
+                if fp and len(fp) == 1:
+                    stores.setdefault(fp[0], []).append(bb.tree_of_rvalue(s['rv']))
+            for bj in range(bb.n):
+                tm = bb.blocks[bj]['term']
+                if tm['t'] == 'call':
+                    fp = self_field_of_place(tm['dest'])
+                    if fp and len(fp) == 1:
+                        stores.setdefault(fp[0], []).append(bb.tree_of_call(tm, 0, bj))
+        latches = {}
+        for fld, trees in stores.items():
+            accs = {_accessor_of_input(t) for t in trees}
+            if len(accs) == 1 and None not in accs:
+                latches[fld] = next(iter(accs))
+        if not latches:
+            continue
+        # the constructor
+        if tr == 'Method':
+            impl = next((i for i in m.method_impls if m.adt_path_of_impl(i) == p), None)
+            cpath = m.impl_fn_path(impl, 'new') if impl else None
+        else:
+            ci = cfg_of.get(p)
+            cpath = m.impl_fn_path(ci, 'init') if ci else None
+        cb = m.body_inlined(cpath, prefer_mono=False) if cpath else None
+        if cb is None:
+            continue
+        lits = []
+        for bj, si, s in cb.stmts():
+            if s['s'] == 'assign' and s['rv']['r'] == 'agg' and s['rv'].get('kind') == 'adt' and s['rv'].get('def') == p:
+                lits.append((s, cb.tree_of_rvalue(s['rv'])))
+        for fld, acc in sorted(latches.items()):
+            key = '%s|%s' % (short, fld)
+            for s, lit in lits:
+                if fld not in (lit[4] or ()):
+                    continue
+                seed = lit[3][list(lit[4]).index(fld)]
+                sacc = _accessor_of_input(seed)
+                n += 1
+                r.inst(key)
+                if sacc is None:
+                    # seeded with something that is not a plain accessor of the construction value (a constant, a computed value): not decided
+                    r.undecided.append('%s.%s: next() latches %s of the input, the constructor seeds it with %s' % (short, fld, acc, tree_str(seed)[:50]))
+                elif sacc != acc:
+                    r.violate(key + '|%s-vs-%s' % (sacc, acc), '%s seeds the latch `%s` with %s() of the construction value, but next() always stores %s() of the input there: '
+                              'the first step is judged against a different quantity than every later step' % (short, fld, sacc, acc), cb.file, s['sp']['l'])
+                else:
+                    r.sample({'type': short, 'latch': fld, 'accessor': acc}, cap=30)
+    r.floor('latches with a decided seed', 6, n)
+    return r
